@@ -415,7 +415,7 @@ class Gen:
         raise AssertionError(p)
 
     def any_arg(self, depth):
-        return self.arg_for(self.param(1), depth)
+        return self.arg_for(self.param(2), depth)
 
     def typedef(self):
         r = self.r
@@ -425,7 +425,7 @@ class Gen:
             if pool:
                 return r.choice(pool)
         nparams = r.randint(0, 4)
-        params = [self.param(1) for _ in range(nparams)]
+        params = [self.param(2) for _ in range(nparams)]
         if r.random() < 0.6 and nparams:
             # make sure some type params exist for from-params bounds
             for i in r.sample(range(nparams), r.randint(1, nparams)):
